@@ -756,7 +756,9 @@ def judge_render(case, sc, pps, p, obs_patches, obs_lanelets, obs_pps, info):
         else:
             info["skipped"] += 1
         st = getattr(o, "initial_state", None)
-        if st is not None and getattr(st, "is_uncertain_position", False):
+        # the region of an uncertain initial position may be drawn with the obstacle - not for an obstacle that has no
+        # occupancy at the selected time (nothing is to be drawn for it: seed C19-15)
+        if occ is not None and st is not None and getattr(st, "is_uncertain_position", False):
             for k in shape_keys(st.position):
                 allowed[k] += 1
         later = isinstance(o, PhantomObstacle) or (isinstance(o, DynamicObstacle)
